@@ -64,12 +64,6 @@ fn simple_name(f: &[u8]) -> bool {
 }
 
 // ---------------------------------------------------------------- implementation side
-fn show_url_res(r: Result<Url, ()>) -> String {
-    match r {
-        Ok(u) => format!("ok {}", url_token(&u)),
-        Err(()) => "err".into(),
-    }
-}
 fn show_path_res(r: Result<PathBuf, ()>) -> String {
     match r {
         Ok(p) => format!("ok {}", hexb(p.as_os_str().as_bytes())),
@@ -446,6 +440,7 @@ fn run_corr(args: &Args) -> Report {
             compare(&mut drv, &mut rep, "rnd-join-raw", &format!("join {} {}", hexb(&p), hexs(s)));
         }
     }
+    rep.notes = outside_class_notes();
     // (4) malformed: URL strings from the shared URL generator (any scheme), mutated pool URLs
     for _ in 0..n / 2 {
         let s = if rng.chance(1, 2) {
@@ -471,12 +466,6 @@ fn known_reparse_class(p: &[u8]) -> bool {
     // '..' components are written unresolved (F-C02-5)
     if comps.iter().any(|c| c == b"..") {
         return true;
-    }
-    // a first component of drive-letter shape is normalised / treated specially by the file URL parser
-    if let Some(c) = comps.first() {
-        if c.len() == 2 && c[0].is_ascii_alphabetic() && (c[1] == b':' || c[1] == b'|') {
-            return true;
-        }
     }
     false
 }
@@ -614,7 +603,7 @@ fn property_of_request(req: &str) -> Option<String> {
 fn run_search(args: &Args) -> Report {
     let mut rep = Report::new();
     let mut rng = Rng::new(args.seed ^ 0x5EA4C4);
-    let mut try_req = |rep: &mut Report, req: String| {
+    let try_req = |rep: &mut Report, req: String| {
         rep.evaluations += 1;
         if rep.failures.len() < 40 {
             if let Some(w) = property_of_request(&req) {
@@ -668,6 +657,28 @@ fn run_search(args: &Args) -> Report {
     rep
 }
 
+/// behaviour just outside the classes of the theorems, observed on the implementation (notes only)
+fn outside_class_notes() -> Vec<String> {
+    let mut v = Vec::new();
+    let show = |p: &[u8], reference: &str| -> String {
+        let d = Url::from_directory_path(path_of(p)).unwrap();
+        match d.join(reference) {
+            Ok(u) => format!("{}.join({:?}) = {} -> to_file_path {:?}", d, reference, u, u.to_file_path()),
+            Err(e) => format!("{}.join({:?}) = Err({:?})", d, reference, e),
+        }
+    };
+    for (p, r) in [
+        (&b"/d"[..], "C|"), (b"/d", "c:"), (b"/d", "a:b"), (b"/d", "http:x"),
+        // raw (unencoded) names as references
+        (b"/d", "x?y"), (b"/d", "x#y"), (b"/d", "a\\b"), (b"/d", "%41"), (b"/d", " x "), (b"/d", "x\ty"), (b"/d", "%2e%2E"), (b"/d", ".."),
+    ] {
+        v.push(format!("outside plain_name / raw reference: {}", g(|| show(p, r))));
+    }
+    v.push(format!("NUL: {}", g(|| format!("file:///a%00b -> to_file_path {:?}", Url::parse("file:///a%00b").unwrap().to_file_path()))));
+    v.push(format!("drive-letter rule: {}", g(|| format!("file:///x/c%3A -> {:?}; file:///x/ab: -> {:?}", Url::parse("file:///x/c%3A").unwrap().to_file_path(), Url::parse("file:///x/ab:").unwrap().to_file_path()))));
+    v
+}
+
 fn run_known(_args: &Args) -> Report {
     let mut rep = Report::new();
     // F-C02-5 (C02's finding, replayed here because from_file_path is modelled here)
@@ -677,6 +688,10 @@ fn run_known(_args: &Args) -> Report {
         format!("{} re-parses to {}", u, back)
     });
     rep.known.push(("F-C02-5".into(), r == "file:///a/../b re-parses to file:///b", r));
+    // documentation of to_file_path promises Err for a decoded NUL; the Unix code returns the path
+    let r = g(|| format!("{:?}", Url::parse("file:///a%00b").unwrap().to_file_path()));
+    rep.known.push(("F-C20-1".into(), r.starts_with("Ok("), format!("to_file_path(file:///a%00b) = {}", r)));
+    rep.notes = outside_class_notes();
     rep
 }
 
